@@ -33,7 +33,7 @@ type recSource struct {
 	Dialect []string `json:"dialect,omitempty"`
 }
 
-var dialects = []string{"shuffle-quals", "wrap-dblink", "crlf", "trailing-blanks", "origin-bare", "lower-month", "blank-lines-after"}
+var dialects = []string{"shuffle-quals", "wrap-dblink", "crlf", "trailing-blanks", "origin-bare", "lower-month", "blank-lines-after", "bare-flag", "bare-flag"}
 
 // applyDialect rewrites GenBank text written by gts into a foreign layout.
 func applyDialect(text []byte, d string, seed uint64) []byte {
@@ -110,6 +110,20 @@ func applyDialect(text []byte, d string, seed uint64) []byte {
 				}
 			}
 		}
+	case "bare-flag":
+		// an empty qualifier of a name gts has no type for, written as other
+		// tools write a flag: /name instead of /name=""
+		for i, l := range lines {
+			t := strings.TrimRight(l, "\n")
+			if strings.HasPrefix(t, qi+"/") && strings.HasSuffix(t, "=\"\"") {
+				name := strings.TrimSuffix(strings.TrimPrefix(t, qi+"/"), "=\"\"")
+				for _, u := range unknownNames {
+					if u == name {
+						lines[i] = qi + "/" + name + "\n"
+					}
+				}
+			}
+		}
 	case "blank-lines-after":
 		return append(text, []byte("\n\n")...)
 	}
@@ -128,6 +142,12 @@ type c01Scenario struct {
 	// bytes after every record boundary (0 = not aligned; 1 = on the boundary,
 	// 2 = one byte past it, ...): a producer that flushes once per record.
 	Align int `json:"align,omitempty"`
+	// SameProcess: the records that entered through the reader (corpus files,
+	// foreign layouts) are all read by ONE process, which then also writes -
+	// as `gts <cmd> file` does - instead of one reader process per record and
+	// a separate writer process: what the reader learnt about qualifier names
+	// is still there when the writer runs.
+	SameProcess bool `json:"same_process,omitempty"`
 }
 
 var gbCorpus = []string{"NC_001422.gb", "NC_001422_part.gb", "pBAT5.txt", "NC_000913.3.min.gb"}
@@ -232,6 +252,7 @@ func genC01(r *core.RNG, tier string) *c01Scenario {
 	if r.Chance(1, 6) {
 		sc.Align = r.Range(1, 3)
 	}
+	sc.SameProcess = r.Chance(1, 3)
 	return sc
 }
 
@@ -284,6 +305,31 @@ func errSig(err error) string {
 		s = s[:70]
 	}
 	return s
+}
+
+// flagFormOnly reports whether two GenBank texts differ in nothing but the
+// form of empty qualifiers of names gts has no built-in type for: a bare flag
+// (/name) on one side, an empty quoted value (/name="") on the other.
+func flagFormOnly(a, b []byte) bool {
+	la, lb := strings.Split(string(a), "\n"), strings.Split(string(b), "\n")
+	if len(la) != len(lb) {
+		return false
+	}
+	diff := false
+	for i := range la {
+		if la[i] == lb[i] {
+			continue
+		}
+		x, y := strings.TrimSpace(la[i]), strings.TrimSpace(lb[i])
+		if len(y) < len(x) {
+			x, y = y, x
+		}
+		if !strings.HasPrefix(x, "/") || y != x+"=\"\"" || qualKind(strings.TrimPrefix(x, "/")) != "unknown-name" {
+			return false
+		}
+		diff = true
+	}
+	return diff
 }
 
 // firstDiffField names the line (its leading keyword) at which two GenBank
@@ -373,9 +419,10 @@ func (x *c01Run) exec() {
 	// P0: corpus records enter through gts's own reader, in a process of their own
 	vals := make([]gts.Sequence, n)
 	foreign := make([]bool, n)
+	foreignText := make([][]byte, n)
 	for i, s := range sc.Records {
 		if s.Corpus == "" && len(s.Dialect) > 0 && s.Gen != nil {
-			processBoundary()
+			processBoundary() // the foreign text itself is prepared outside the simulated processes
 			text, err, pnc := writeSeq(s.Gen.build(), seqio.GenBankFile)
 			if err != nil || pnc != "" {
 				continue
@@ -383,7 +430,16 @@ func (x *c01Run) exec() {
 			for k, d := range s.Dialect {
 				text = applyDialect(text, d, s.Gen.SeqSeed+uint64(k))
 			}
-			processBoundary()
+			foreignText[i] = text
+			continue
+		}
+	}
+	processBoundary()
+	for i, s := range sc.Records {
+		if text := foreignText[i]; text != nil {
+			if !sc.SameProcess {
+				processBoundary()
+			}
 			r := scanAll(text, simpipe.Spec{Chunks: sc.Chunks3, CutAt: -1}, 0)
 			res.SimOps += r.Reads
 			res.Evaluations++
@@ -406,7 +462,9 @@ func (x *c01Run) exec() {
 		if s.Corpus == "" {
 			continue
 		}
-		processBoundary()
+		if !sc.SameProcess {
+			processBoundary()
+		}
 		r := scanAll(corpus.Get(s.Corpus), simpipe.Spec{CutAt: -1}, 0)
 		res.SimOps += r.Reads
 		if r.Panic != "" || r.Err != nil || len(r.Seqs) == 0 {
@@ -416,7 +474,11 @@ func (x *c01Run) exec() {
 		vals[i] = r.Seqs[0]
 	}
 	// P1: build, edit, write
-	processBoundary()
+	if !sc.SameProcess {
+		processBoundary()
+	} else {
+		res.Probes["reader_and_writer_in_one_process"]++
+	}
 	outs := make([][]byte, n)
 	skip := make([]bool, n)
 	if sc.FailFirst != nil && n > 0 && sc.Records[0].Gen != nil {
@@ -530,7 +592,11 @@ func (x *c01Run) exec() {
 		}
 		res.Evaluations++
 		if !bytes.Equal(out, outs[i]) {
-			x.violate("fixed-point", firstDiffField(outs[i], out), fmt.Sprintf("record %d: write-read-write differs from the first output at field %s", i, firstDiffField(outs[i], out)))
+			if flagFormOnly(outs[i], out) {
+				x.violate("fixed-point", "learnt-flag-form", fmt.Sprintf("record %d: the second output differs from the first only in writing an empty qualifier of a name without built-in type as /name in one and /name=\"\" in the other (the form depends on what the writing process had read before)", i))
+			} else {
+				x.violate("fixed-point", firstDiffField(outs[i], out), fmt.Sprintf("record %d: write-read-write differs from the first output at field %s", i, firstDiffField(outs[i], out)))
+			}
 		}
 		// L3 fidelity against the value that was written
 		sliced := false
@@ -559,7 +625,11 @@ func (x *c01Run) exec() {
 		for k := range idx {
 			out, err, pnc := writeSeq(r3.Seqs[k], seqio.GenBankFile)
 			if pnc != "" || err != nil || !bytes.Equal(out, outs2[k]) {
-				x.violate("fixed-point", "third-generation:"+firstDiffField(outs2[k], out), fmt.Sprintf("record %d: third write differs from second (err=%v)", idx[k], err))
+				if pnc == "" && err == nil && flagFormOnly(outs2[k], out) {
+					x.violate("fixed-point", "learnt-flag-form", fmt.Sprintf("record %d: third write differs from second only in the form of an empty qualifier of a name without built-in type", idx[k]))
+				} else {
+					x.violate("fixed-point", "third-generation:"+firstDiffField(outs2[k], out), fmt.Sprintf("record %d: third write differs from second (err=%v)", idx[k], err))
+				}
 			}
 		}
 	}
@@ -716,6 +786,7 @@ func (C01) Candidates(raw json.RawMessage) []json.RawMessage {
 	for _, f := range []func(*c01Scenario){
 		func(c *c01Scenario) { c.FailFirst = nil },
 		func(c *c01Scenario) { c.Align = 0 },
+		func(c *c01Scenario) { c.SameProcess = false },
 		func(c *c01Scenario) { c.Chunks2 = nil }, func(c *c01Scenario) { c.Chunks3 = nil }, func(c *c01Scenario) { c.AltChunks = nil },
 	} {
 		c := cl()
